@@ -25,6 +25,9 @@ def make_plan(check, seed, run, engine, tier="quick", entry=None):
 
 
 def execute(check, plan):
+    if plan.get("level") == "rng":
+        from . import rngcheck
+        return rngcheck.run_plan(plan)
     if plan.get("level", "solver") == "solver":
         from . import runner
         return runner.run_plan(plan)
@@ -92,9 +95,15 @@ def samples(check, seed, tier):
                             datasets=[[len(d["X"]), len(d["X"][0]), d["kind"]] for d in plan["datasets"]],
                             ops=[_short_est_op(o) for o in plan["ops"]]))
             continue
-        if plan.get("level") == "matrix":
-            out.append(dict(run=run, level=plan["level"], cell=plan.get("cell"),
-                            draws=plan.get("draws")))
+        if plan.get("level") == "rng":
+            out.append(dict(run=run, level="rng", matrix_kind=plan["data"]["gen"]["kind"],
+                            shape=[len(plan["data"]["X"]), len(plan["data"]["X"][0])],
+                            generator_seeds=plan["rng_draws"][:4] + ["... %d draws" % len(plan["rng_draws"])],
+                            adversarial_components=plan["adversarial"]))
+            continue
+        if plan.get("matrix"):
+            out.append(dict(run=run, level="composition matrix cell", cell=plan.get("cell"),
+                            scheduler_draw=plan.get("draws"), op=_short_op(plan["ops"][0])))
             continue
         d = plan["data"]
         out.append(dict(run=run, family={k: plan["family"][k] for k in
@@ -132,3 +141,11 @@ CHECK_TIERS = {
     "C18": {"quick": dict(phases=[("twin", 0.5), ("compiled", 0.5)], run_cap=60),
             "thorough": dict(phases=[("twin", 0.5), ("compiled", 0.5)], run_cap=120)},
 }
+CHECK_TIERS["C13"] = {"quick": dict(phases=[("compiled", 0.55), ("twin", 0.45)], count=1000000, run_cap=30),
+                      "thorough": dict(phases=[("compiled", 0.8), ("twin", 0.2)], count=20000000, run_cap=60)}
+CHECK_TIERS["C20"] = {"quick": dict(phases=[("compiled", 0.4), ("bounds", 0.6)], count=6000, run_cap=30),
+                      "thorough": dict(phases=[("compiled", 0.4), ("bounds", 0.6)], count=200000, run_cap=60)}
+CHECK_TIERS["C19"] = {"quick": dict(phases=[("compiled", 0.7), ("twin", 0.3)], count=2000000, run_cap=30),
+                      "thorough": dict(phases=[("compiled", 0.7), ("twin", 0.3)], count=40000000, run_cap=60)}
+CHECK_TIERS["C09"] = {"quick": dict(budget_s=60, phases=[("compiled", 0.6), ("twin", 0.4)], count=2000000, run_cap=30),
+                      "thorough": dict(budget_s=600, phases=[("compiled", 0.6), ("twin", 0.4)], count=40000000, run_cap=60)}
